@@ -30,6 +30,10 @@ func c03Rules(p *core.Prog, r *core.Run) {
 	c03Splice(p, r, m, "C03")
 	// what ServerName()/ALPNProtos() report is the reconstructed hello's
 	c01Accessors(p, r, m, "C03.S3.accessors")
+	// ... and they are the values as they stand in the hello (no normalisation)
+	c05SniAlpn(p, r, m, "C03.S3.parse")
+	// after a HelloRetryRequest the hello delivered is the newly reconstructed one
+	c06State(p, r, m, "C03.retry")
 }
 
 // c03Splice holds the reconstruction rules; pre is the prefix they are
@@ -169,10 +173,8 @@ func c03Splice(p *core.Prog, r *core.Run, m *echModel, pre string) {
 					nonMarker++
 					idx := v.Args[1]
 					forward := false
-					if bo, ok := idx.Val.(*ssa.BinOp); ok {
-						if phi, ok := bo.X.(*ssa.Phi); ok {
-							forward = !loopCarried(p.X(phi), phi.Block()) && phi.Block().Dominates(c.Block())
-						}
+					if phi := forwardCounter(idx.Val); phi != nil {
+						forward = phi.Block().Dominates(c.Block())
 					}
 					notMarker := core.HasFact(p.Facts(c.Block()), "!=", `.*\.Type`, "64768")
 					r.Check(pre+".S1", "process:copy-inner-extension", forward && notMarker, p.InstrPos(c), "every extension of the decrypted hello other than the marker (%v) is appended itself, at the position of a single forward range (%v)", notMarker, forward)
